@@ -331,3 +331,31 @@ __CPROVER_ensures(g_emitted >= 1) /*@ C12 "every statement yields at least one l
     dropped=['message bytes (newline positions are given by the find_first_of stub: first newline at or after the start)', 'statement attributes passed through to _write_log_statement'],
     trusted=['std::string_view::find_first_of returns the first match'], min_obligations=20)
 UNITS.append(multiline)
+
+# ------------------------------------------------------------------------------------------ _populate_formatted_named_args
+FN_PRELUDE = r'''
+typedef struct TE { int dummy; } TE; typedef struct BW { int dummy; } BW;
+size_t g_prepares, g_splits; int g_thrown;
+void PREPARE_NAMED_ARGS(BW* self, TE* te) __CPROVER_assigns(g_prepares) __CPROVER_ensures(g_prepares == OLD(g_prepares) + 1);
+/* _format_and_split_arguments: formats every argument with its own spec through fmt - runs user formatters, may throw ANY type */
+void FORMAT_AND_SPLIT(BW* self, TE* te) __CPROVER_assigns(g_splits, g_exc, g_thrown)
+__CPROVER_ensures(g_splits == OLD(g_splits) + 1 && (g_exc == 0 || g_exc == EXC_STD || g_exc == EXC_OTHER) && g_thrown == g_exc);
+'''
+fmt_named = dict(
+    name='BW.fmt_named', primary='C10', props={'C10'}, kind='S',
+    desc='BackendWorker::_populate_formatted_named_args: an exception of any type thrown while formatting the named values is contained (the error was already reported for the message)',
+    structs=[], prelude=FN_PRELUDE, enforce='BW__populate_formatted_named_args', replace=['PREPARE_NAMED_ARGS', 'FORMAT_AND_SPLIT'],
+    funcs=[dict(src=dict(header=H, cls='BackendWorker', name='_populate_formatted_named_args'), src_params=['transit_event', 'arg_names'],
+                cfun='BW__populate_formatted_named_args', sig='void BW__populate_formatted_named_args(BW* self, TE* transit_event)', cls_c='BW', member_fields=[],
+                pre_rules=[(r'^\s*\{.*?(?=try\s*\{\s*_format_and_split_arguments)', '{ PREPARE_NAMED_ARGS(self, transit_event);\n', 1),
+                           (r'_format_and_split_arguments\s*\([^;]*\)\s*;', 'FORMAT_AND_SPLIT(self, transit_event);', 1)],
+                exceptions=True, may_throw=['FORMAT_AND_SPLIT'],
+                contract=r'''
+__CPROVER_requires(__CPROVER_is_fresh(self, sizeof(*self)) && __CPROVER_is_fresh(transit_event, sizeof(TE)) && g_exc == 0 && g_prepares == 0 && g_splits == 0 && g_thrown == 0)
+__CPROVER_assigns(g_exc, g_prepares, g_splits, g_thrown)
+__CPROVER_ensures(g_exc == 0) /*@ C10 "a user formatter that throws - any type - while the named values are formatted never escapes: the record is consumed and later statements are still delivered" */
+__CPROVER_ensures(g_prepares == 1 && g_splits == 1) /*@ C19 "the pairs are prepared, then the values are formatted and split once" */
+''')],
+    harness='  BW* s; TE* te; BW__populate_formatted_named_args(s, te);',
+    dropped=['the construction of the key/value vector (names, placeholders for surplus arguments) - one stub'], trusted=[], min_obligations=10)
+UNITS.append(fmt_named)
